@@ -1066,6 +1066,78 @@ fn family3(n: usize) -> Vec<AirDesc> {
     v.into_iter().filter(|d| d.validate().is_ok()).collect()
 }
 
+/// fourth hand-made family, EXHAUSTIVE in the step of the sibling: a strided assertion (stride S, first step a,
+/// periodic or sequence) on column 1 and a single assertion at step t on column 0 (and on column 1 itself when t is
+/// not one of its asserted steps), one description for EVERY t in 0..n, for total trace widths 2, 3, 4 (main only)
+/// and 2 + 2 (main + auxiliary). Whatever function of (stride, first step, step, width, length) a grouping key might
+/// be, some description makes the single assertion collide with the strided one. Returns the description and the
+/// asserted steps of the strided assertion (the cells to violate one at a time).
+fn family4(n: usize) -> Vec<(AirDesc, Vec<usize>)> {
+    let mut v = vec![];
+    let r = |i: usize| Expr::Rand(i);
+    let mut sa: Vec<(usize, usize)> = vec![(2, 1), (2, 0), (4, 1), (4, 0), (4, 3), (n / 2, 1), (n / 2, 0), (n / 2, n / 2 - 1)];
+    sa.sort();
+    sa.dedup();
+    for (stride, first) in sa {
+        if stride < 2 || stride > n / 2 || first >= stride {
+            continue;
+        }
+        let asserted: Vec<usize> = (0..n / stride).map(|j| first + j * stride).collect();
+        for seq in [false, true] {
+            for t in 0..n {
+                // shapes: (main width, auxiliary segment)
+                for (mw, aux) in [(2usize, false), (3, false), (4, false), (2, true)] {
+                    let strided = if seq { AssertDesc::sequence(1, first, stride) } else { AssertDesc::periodic(1, first, stride) };
+                    let nv = if seq { n / stride } else { 1 };
+                    let mut assertions = vec![strided, AssertDesc::single(0, t)];
+                    if !asserted.contains(&t) && (t + mw) % 2 == 0 {
+                        assertions.push(AssertDesc::single(1, t));
+                    }
+                    let lin0 = Expr::add(c(0), k(3));
+                    let mut cols = vec![ColGen::Step { init: None, expr: lin0.clone() }, if seq { ColGen::Rand } else { ColGen::Cyc(stride) }];
+                    while cols.len() < mw {
+                        cols.push(if cols.len() % 2 == 0 { ColGen::Rand } else { ColGen::Counter });
+                    }
+                    let mut d = AirDesc {
+                        width: mw,
+                        trace_len: n,
+                        exemptions: 1,
+                        tail_junk: false,
+                        periodic: vec![],
+                        cols,
+                        constraints: vec![cons(&[], n, Expr::sub(nx(0), lin0))],
+                        assertions,
+                        aux: None,
+                    };
+                    if aux {
+                        let i0 = Expr::add(Expr::mul(r(0), c(1)), r(1));
+                        let i1 = Expr::add(Expr::mul(r(0), c(0)), r(1));
+                        let sval = if seq { Expr::PubSeq(0) } else { Expr::Pub(0) };
+                        d.aux = Some(AuxDesc {
+                            width: 2,
+                            num_rands: 2,
+                            lagrange: false,
+                            cols: vec![AuxGen::Fn(i0), AuxGen::Fn(i1.clone())],
+                            constraints: vec![cons(&[], n, Expr::sub(Expr::AuxCur(1), i1))],
+                            assertions: vec![
+                                AuxAssertDesc {
+                                    a: if seq { AssertDesc::sequence(0, first, stride) } else { AssertDesc::periodic(0, first, stride) },
+                                    value: Expr::add(Expr::mul(r(0), sval), r(1)),
+                                },
+                                AuxAssertDesc { a: AssertDesc::single(1, t), value: Expr::add(Expr::mul(r(0), Expr::Pub(nv)), r(1)) },
+                            ],
+                        });
+                    }
+                    if d.validate().is_ok() {
+                        v.push((d, asserted.clone()));
+                    }
+                }
+            }
+        }
+    }
+    v
+}
+
 fn options_for(d: &AirDesc, field: FieldId, k: usize) -> OptSpec {
     let b = d.min_blowup().max(if k % 3 == 0 { 4 } else { 2 });
     let exts: Vec<u8> = (1..=3u8).filter(|x| field.supports_ext(*x)).collect();
@@ -1297,6 +1369,29 @@ impl Prop for P {
                     }
                     let cfg = Cfg { field, hash: hashes[k % hashes.len()], opts, seed: 4000 + k as u64, desc: Arc::new(d.clone()) };
                     emit_config(rng, &cfg, true, &["inc", "rnd"], emit);
+                }
+            }
+        }
+        // fourth family: the same, exhaustive in the step of the single sibling assertion and over trace widths;
+        // only the asserted cells of the strided assertion are violated (one at a time), fields and hashers rotate
+        let lens4: &[usize] = if quick { &[8, 16] } else { &[8, 16, 32] };
+        for &len in lens4 {
+            for (di, (d, asserted)) in family4(len).into_iter().enumerate() {
+                let field = FieldId::ALL[di % 3];
+                let hashes = HashId::for_field(field);
+                k += 1;
+                let mut opts = options_for(&d, field, k);
+                if opts.queries >= len * opts.blowup {
+                    opts.queries = 3;
+                }
+                let has_aux = d.aux.is_some();
+                let cfg = Cfg { field, hash: hashes[(di / 3) % hashes.len()], opts, seed: 6000 + k as u64, desc: Arc::new(d) };
+                let ct = cfg_text(&cfg);
+                for s in &asserted {
+                    emit(format!("cell {} 1 {} {}", ct, s, if (di + s) % 2 == 0 { "inc" } else { "rnd" }));
+                    if has_aux {
+                        emit(format!("auxcell {} 0 {}", ct, s));
+                    }
                 }
             }
         }
